@@ -3,3 +3,5 @@ import CGV.Props.C09
 #print axioms CGV.C09.C09_smallest
 #print axioms CGV.C09.C09_hydrogen_untouched
 #print axioms CGV.C09.C09_over_valence
+#print axioms CGV.C09.C09_new_hydrogen_one_bond
+#print axioms CGV.C09.C09_inherit
